@@ -1276,10 +1276,15 @@ class ValueObject(Value):
         if self.hasItem(key):
             return self.getItem(key)
         current = self
+        seen = [self]
         while current.hasItem("_proto_"):
             current = current.getItem("_proto_")
-            if not current:
+            if (
+                not isinstance(current, ValueObject)
+                or any(current is o for o in seen)
+            ):
                 break
+            seen.append(current)
             if current.hasItem(key):
                 return current.getItem(key)
         return None
